@@ -7,11 +7,8 @@ from lib.rlngen import hx
 
 def check(run):
     run.level = "proof"
-    try:
-        from checks import _c14_theorems
-        run.prove(_c14_theorems.THEOREMS)
-    except ImportError:
-        run.note("proof module for C14 not present yet")
+    from checks import _c14_theorems
+    run.prove(_c14_theorems.THEOREMS)
     rng = run.rng
     quick = run.tier == "quick"
     zkh = run.harness()
